@@ -38,7 +38,9 @@ RULE = ('(a) correspondence: generated well-nested histories (with-blocks, excep
         'edits; every shape of the small categories - star / dotted / `as` aliases, ** keywords, withitem forms, except* '
         'handlers, type params, patterns - through the node and through its parent), deletes of every sub-range of every slice '
         'field incl. the whole range through put_slice(None)/put(None,i,j)/del view[i:j]/get_slice(cut): whatever raises is '
-        'judged, valid request or not; plus systematic '
+        'judged, valid request or not; PRIMITIVE values (0/1/2/-1/True/False/None/strings/floats) put to every primitive field '
+        '(AnnAssign.simple, is_async, ImportFrom.level, Constant.value/kind, conversion, identifiers, names lists) through put() '
+        'and attribute / item assignment; plus systematic '
         'families on the small trees (delete every node and field; every position x every rule-breaking code of every slice '
         'field; every option x junk values (out-of-range ints, wrong types) x every entry-point family - insert/append/prepend/'
         'extend/put/put_slice/delete/get_slice(cut)/replace/remove/cut - on every statement list). Every call that RAISES is judged: src, ast.dump(with positions) of the whole root and the AST<->FST node '
